@@ -2,7 +2,7 @@ CONSTANTS
   SampleMod = 30
   MaxOps = 1
   Scripted = FALSE
-  ExcuseKF = TRUE
+  ExcuseKF = FALSE
   Dump = FALSE
 INIT Init
 NEXT Next
@@ -16,5 +16,6 @@ INVARIANT Inv_C20_ParamsKept
 INVARIANT Inv_C20_Idempotent
 INVARIANT Inv_C20_RenameInert
 INVARIANT Inv_C20_DocInert
+INVARIANT Inv_NoKnownFinding
 INVARIANT Inv_StepsEqFunction
 CHECK_DEADLOCK FALSE
